@@ -134,12 +134,12 @@ pub fn check(v: &View, vd: &mut Verdict) {
                 let Some(want) = want else { continue };
                 let got = v.invs.iter().filter(|x| x.actor == s && x.msg == want).count();
                 // the child may have been stopped from outside before the broadcast
-                let child_alive = v.actors[s].spawned.is_some_and(|sp| sp < *at) && *at < v.alive_until(s).max(v.dead_from(i.actor).min(v.dead_from(s)));
+                let child_alive = v.actors[s].spawned.is_some_and(|sp| sp < *at) && *at < v.alive_until(s);
                 if is_target {
                     if got > 1 {
                         vd.fail("C16/broadcast_duplicated", format!("broadcast tag {tag} ({reg:?}) of actor {} was handled {got} times by child {s}", i.actor));
                     }
-                    if got == 0 && child_alive && v.actors[s].stop_reqs.is_empty() {
+                    if got == 0 && child_alive {
                         vd.fail("C16/broadcast_lost", format!("broadcast tag {tag} ({reg:?}) of actor {} at {at} never reached child {s}", i.actor));
                     }
                 } else if got > 0 {
@@ -151,27 +151,35 @@ pub fn check(v: &View, vd: &mut Verdict) {
     // unit broadcasts: count per child
     for (s, spec) in case.actors.iter().enumerate() {
         let units = v.invs.iter().filter(|x| x.actor == s && x.msg == MsgRef::Unit).count();
-        let sent = |pslot: usize| -> usize {
-            v.invs
-                .iter()
-                .filter(|i| v.rt[i.actor].slot == Some(pslot))
-                .map(|i| match &i.msg {
-                    MsgRef::Client(id) => v
-                        .work_of(*id)
-                        .map(|w| w.iter().enumerate().filter(|(k, st)| matches!(st, Step::SendToChildren { reg: ChildReg::Unit, .. }) && i.steps.iter().any(|x| x.0 as usize == *k)).count())
-                        .unwrap_or(0),
-                    _ => 0,
-                })
-                .sum()
+        // (all executed unit broadcasts of the parent, those executed while the child was certainly alive)
+        let sent = |pslot: usize| -> (usize, usize) {
+            let mut all = 0;
+            let mut sure = 0;
+            for i in v.invs.iter().filter(|i| v.rt[i.actor].slot == Some(pslot)) {
+                let MsgRef::Client(id) = &i.msg else { continue };
+                let Some(w) = v.work_of(*id) else { continue };
+                for (k, st) in w.iter().enumerate() {
+                    if !matches!(st, Step::SendToChildren { reg: ChildReg::Unit, .. }) {
+                        continue;
+                    }
+                    if let Some((_, at, _)) = i.steps.iter().find(|x| x.0 as usize == k) {
+                        all += 1;
+                        if v.actors[s].spawned.is_some_and(|sp| sp < *at) && *at < v.alive_until(s) {
+                            sure += 1;
+                        }
+                    }
+                }
+            }
+            (all, sure)
         };
         match spec.parent {
             Some(c) if c.under == ChildReg::Unit => {
-                let expect = sent(c.parent);
-                if units > expect {
-                    vd.fail("C16/unit_broadcast_duplicated", format!("child {s} handled {units} unit broadcasts, its parent sent {expect}"));
+                let (all, sure) = sent(c.parent);
+                if units > all {
+                    vd.fail("C16/unit_broadcast_duplicated", format!("child {s} handled {units} unit broadcasts, its parent sent {all}"));
                 }
-                if units < expect && v.actors[s].stop_reqs.is_empty() && v.actors[s].spawned.is_some() {
-                    vd.fail("C16/unit_broadcast_lost", format!("child {s} handled {units} unit broadcasts, its parent sent {expect}"));
+                if units < sure && v.actors[s].spawned.is_some() {
+                    vd.fail("C16/unit_broadcast_lost", format!("child {s} handled {units} unit broadcasts, its parent sent {sure} while the child was alive ({all} in total)"));
                 }
             }
             _ => {
